@@ -89,7 +89,11 @@ def menu_for(skel, full):
         m += ["-" + shorts[0] + shorts[1]] + (["-" + shorts[1] + shorts[0]] if full else [])
     for n, al in skel.all_cmds:
         m += [n] + (list(al) if full else [])
-    return m
+    out = []
+    for x in m:                    # (a literal may arise twice, e.g. a grouped pair that equals "-<short><letter>")
+        if x not in out:
+            out.append(x)
+    return out
 
 
 def _pick(menu, k):
